@@ -1,3 +1,4 @@
+import Percival.Model.DHStep
 import Percival.Proofs.DH
 /-!
 # C10 — Diffie–Hellman: exact group-14 exponentiation, agreement, blinding-independent
@@ -139,5 +140,71 @@ theorem sanitycheck_iff (pub : List UInt8) (h : pub.length = 256) :
 example : (List.replicate 32 (7 : UInt8)).length = 32 := by decide
 example : sanitycheck (List.replicate 256 0xff) = some false := by decide +kernel
 example : sanitycheck (List.replicate 255 0 ++ [1]) = some true := by decide +kernel
+
+/-! ## The functions the executables run
+
+`pmodel dh` applies `Model.DHStep.stepOp` to every parsed line (L1 = the specified value `specPow`, L2 = the
+model of crypto_dh.c), `pmodel dhmon` applies `Model.DHStep.monStep`; the drivers only parse and print. -/
+
+open Percival.Model.DHStep in
+/-- the value printed at L1 is the specified one: `a^(2^258 + x) mod p`, big-endian in 256 bytes -/
+theorem exec_spec_value (a : Nat) (priv : List UInt8) :
+    specPow a priv = toBE 256 (a^(Spec.DH.offset + Spec.DH.ofBE priv) % Spec.DH.p) := by
+  unfold specPow; rw [Proofs.DH.powMod_eq]
+
+open Percival.Model.DHStep in
+example : (specPow 2 (List.replicate 32 0)).length = 256 := by decide +kernel
+
+open Percival.Model.DHStep in
+/-- **L2 = L1 on every line within the contract** (32-byte private value and blinding): the model's result in
+the `Out` of `stepOp` is `some` of the specified value, for public-key generation, key generation and the
+shared-key computation (any peer value); for `sanity` (256-byte peer value) both parts agree. -/
+theorem exec_model_eq_spec :
+    (∀ priv b : List UInt8, priv.length = 32 → b.length = 32 →
+      stepOp (.pub priv (some b)) = .value (specPow 2 priv) (some (specPow 2 priv))) ∧
+    (∀ y priv b : List UInt8, priv.length = 32 → b.length = 32 →
+      stepOp (.compute y priv (some b)) = .value (specPow (Spec.DH.ofBE y) priv) (some (specPow (Spec.DH.ofBE y) priv))) ∧
+    (∀ priv b : List UInt8, priv.length = 32 → b.length = 32 →
+      stepOp (.generate (some priv) (some b)) = .generated priv (specPow 2 priv) (some (specPow 2 priv))) ∧
+    (∀ y : List UInt8, y.length = 256 →
+      stepOp (.sanity y) = .sanity (decide (Spec.DH.ofBE y < Spec.DH.p)) (some (decide (Spec.DH.ofBE y < Spec.DH.p)))) := by
+  refine ⟨?_, ?_, ?_, ?_⟩
+  · intro priv b hp hb
+    simp only [stepOp, exec_spec_value, generatePub_eq priv b hp hb, Spec.DH.pub]
+  · intro y priv b hp hb
+    simp only [stepOp, exec_spec_value, compute_eq y priv b hp hb, Spec.DH.shared]
+  · intro priv b hp hb
+    simp only [stepOp, exec_spec_value, generatePub_eq priv b hp hb, Spec.DH.pub]
+  · intro y hy
+    simp only [stepOp, sanitycheck_iff y hy]
+
+example : (List.replicate 32 (7 : UInt8)).length = 32 ∧ (List.replicate 256 (0 : UInt8)).length = 256 := ⟨List.length_replicate .., List.length_replicate ..⟩
+
+open Percival.Model.DHStep in
+/-- **Soundness of the monitor for the model**: whatever the model answers to a call within the contract — the
+value, or a failure — `monStep` accepts; and it rejects every other value. -/
+theorem monitor_accepts_model :
+    (∀ priv b : List UInt8, priv.length = 32 → b.length = 32 →
+      ∀ v, generatePub priv b = some v → monStep (.pub priv) (.ok v) = true) ∧
+    (∀ y priv b : List UInt8, priv.length = 32 → b.length = 32 →
+      ∀ v, compute y priv b = some v → monStep (.compute y priv) (.ok v) = true) ∧
+    (∀ op, monStep op .fail = true) ∧
+    (∀ op v, monStep op (.ok v) = true ↔ v = want op) := by
+  refine ⟨?_, ?_, fun _ => rfl, fun op v => by simp [monStep]⟩
+  · intro priv b hp hb v hv
+    rw [generatePub_eq priv b hp hb] at hv
+    have hv' := (Option.some.inj hv).symm
+    have h : toBE 256 (Spec.DH.pub (Spec.DH.ofBE priv)) = want (.pub priv) := by
+      simp only [want, exec_spec_value, Spec.DH.pub]
+    exact decide_eq_true (hv'.trans h)
+  · intro y priv b hp hb v hv
+    rw [compute_eq y priv b hp hb] at hv
+    have hv' := (Option.some.inj hv).symm
+    have h : toBE 256 (Spec.DH.shared (Spec.DH.ofBE y) (Spec.DH.ofBE priv)) = want (.compute y priv) := by
+      simp only [want, exec_spec_value, Spec.DH.shared]
+    exact decide_eq_true (hv'.trans h)
+
+open Percival.Model.DHStep in
+example : monStep (.pub (List.replicate 32 0)) (.ok [1, 2, 3]) = false := by decide +kernel
 
 end Percival.C10
